@@ -1,1 +1,2 @@
 pub mod stream;
+pub mod tok;
